@@ -270,6 +270,8 @@ type Peer struct {
 	mu      sync.Mutex
 	nextOut int
 	Frames  chan fixwire.Fields
+	Logons  chan fixwire.Fields // Logon frames from the engine (besides Frames)
+	SendMu  sync.Mutex          // serialises the scripted peer's writes (number taken and bytes written atomically)
 	done    chan struct{}
 	Who     string
 }
@@ -287,7 +289,7 @@ func Dial(port int, r *Recorder, begin, sender, target string) (*Peer, error) {
 	if err != nil {
 		return nil, err
 	}
-	p := &Peer{Conn: c, R: r, Begin: begin, Sender: sender, Target: target, nextOut: 1, Frames: make(chan fixwire.Fields, 100000), done: make(chan struct{}), Who: "wire"}
+	p := &Peer{Conn: c, R: r, Begin: begin, Sender: sender, Target: target, nextOut: 1, Frames: make(chan fixwire.Fields, 100000), Logons: make(chan fixwire.Fields, 100), done: make(chan struct{}), Who: "wire"}
 	go p.readLoop()
 	return p, nil
 }
@@ -319,6 +321,12 @@ func (p *Peer) readLoop() {
 				case p.Frames <- fs:
 				default:
 				}
+				if t, _ := fs.Get(35); t == "A" {
+					select {
+					case p.Logons <- fs:
+					default:
+					}
+				}
 			}
 		}
 		if err != nil {
@@ -341,6 +349,17 @@ func (p *Peer) ts() string {
 
 // Msg builds and sends a message with the next sequence number (or seq when >0).
 func (p *Peer) Msg(msgType string, seq int, hdr, body fixwire.Fields) error {
+	p.SendMu.Lock()
+	defer p.SendMu.Unlock()
+	return p.msgLocked(msgType, seq, hdr, body)
+}
+
+// MsgLocked is Msg for callers that already hold SendMu.
+func (p *Peer) MsgLocked(msgType string, seq int, hdr, body fixwire.Fields) error {
+	return p.msgLocked(msgType, seq, hdr, body)
+}
+
+func (p *Peer) msgLocked(msgType string, seq int, hdr, body fixwire.Fields) error {
 	if seq <= 0 {
 		seq = p.Next()
 	}
